@@ -96,6 +96,6 @@ def outside_price_domain(world):
         if kind in ("CIRRate", "VasicekRate"):
             continue
         sp = dict(p.named_buffers()).get("spot")
-        if sp is not None and sp.numel() and not bool((sp > 0).all()):
+        if sp is not None and sp.numel() and not (bool((sp > 0).all()) and bool(torch.isfinite(sp).all())):
             return True
     return False
